@@ -35,7 +35,7 @@ COMPONENTS = {'real': ['flax/nnx/training/optimizer.py', 'flax/nnx/helpers.py Tr
 ASSUMPTIONS = [
   'optax itself is the trusted base: the reference loop calls the same tx.init / tx.update / apply_updates by hand',
   'inexact arithmetic (Adam square roots, Welford moments, jit-vs-eager fusion) is compared with rtol=1e-5 (Welford 1e-4); everything else bytewise',
-  'no exception faults are injected: the property says nothing about a failed update; these are deterministic folds and the simulator adds only the history dimension',
+  'one fault kind: the wrapped optax transformation raises inside an eager Optimizer.update; read narrowly - a failed update is not an update, so step counter, parameters and optimizer state stay what the hand-written loop (which skipped that step) has, and the exception reaches the caller',
 ]
 PROBES = ['opt_nnx_optimizer', 'opt_nnx_trainstate', 'opt_linen_trainstate', 'step_jit', 'step_eager', 'jit_eager_alternation', 'non_wrt_edit', 'shared_param', 'multisteps', 'schedule', 'metric_average', 'metric_accuracy', 'metric_welford', 'metric_multi', 'metric_reset', 'metric_jit', 'metric_empty_nan', 'metric_repartition', 'metric_big_stream', 'mixed_precision_params']
 
@@ -58,7 +58,10 @@ def generate(rs, tier):
   ops = []
   for _ in range(g.randrange(2, 9)):
     r = g.random()
-    if r < 0.8:
+    if r < 0.08:
+      # fault: the wrapped optax transformation raises inside this update (eager call)
+      ops.append(dict(op='step', jit=False, gseed=g.randrange(100), fail=True))
+    elif r < 0.8:
       ops.append(dict(op='step', jit=g.random() < 0.35, gseed=g.randrange(100)))
     else:
       ops.append(dict(op='edit', target=g.randrange(64), delta=g.randrange(1, 5)))
@@ -89,6 +92,10 @@ SHRINK_LISTS = ['ops']
 
 def signature(plan, v):
   return dict(kind=plan['knobs']['kind'])
+
+
+class TxFault(Exception):
+  pass
 
 
 def make_tx(name):
@@ -154,6 +161,17 @@ class OptWorld:
           mv.value = mv.value.astype(ml_dtypes.bfloat16)
           self.h.real[i].value = jnp.asarray(mv.value)
     self.tx, self.exact_tx = make_tx(k['tx'])
+    inner_tx = self.tx
+    self.fail_next = [False]
+
+    def failing_update(updates, state, params=None, **kw):
+      if self.fail_next[0]:
+        self.fail_next[0] = False
+        raise TxFault('injected failure inside the optax transformation')
+      return inner_tx.update(updates, state, params, **kw)
+
+    # the wrapper holds a transformation whose update can be made to fail; the reference loop uses the plain one
+    self.faulty_tx = optax.GradientTransformation(inner_tx.init, failing_update)
     self.real_f, self.model_f = wrt_filters(k['wrt'])
     self.wrapper = k['wrapper']
     self.steps = 0
@@ -172,7 +190,7 @@ class OptWorld:
     self.ref_state = self.tx.init(self.ref_params)
     if self.wrapper == 'nnx.Optimizer':
       res.probe('opt_nnx_optimizer')
-      self.opt = nnx.Optimizer(model, self.tx, wrt=self.real_f)
+      self.opt = nnx.Optimizer(model, self.faulty_tx, wrt=self.real_f)
       self.jit_update = nnx.jit(lambda o, g: o.update(g))
     elif self.wrapper == 'nnx.TrainState':
       res.probe('opt_nnx_trainstate')
@@ -207,6 +225,26 @@ class OptWorld:
       res.probe('non_wrt_edit')
       self.log.add(oi, 'edit')
       self.h.check_root(self.root, f'op {oi} edit')
+      return
+    if op.get('fail'):
+      if self.wrapper != 'nnx.Optimizer':
+        return
+      # A failed update is not an update: the step counter counts applied updates, and parameters / optimizer state
+      # must be what the hand-written loop (which did not run this step) has.
+      before = (int(self.opt.step.value), [np.array(x) for x in jax.tree_util.tree_leaves(nnx.state(self.h.real[self.root], self.real_f))], [np.array(v.value) for v in jax.tree_util.tree_leaves(self.opt.opt_state, is_leaf=lambda x: isinstance(x, nnx.Variable))])
+      self.fail_next[0] = True
+      try:
+        self.opt.update(self.grads_like(self.ref_params, op['gseed']))
+        raise Violation('exception-swallowed', f'op {oi}: the exception raised by the optax transformation did not reach the caller of update')
+      except TxFault:
+        res.fault('raise_in_optax_update')
+      after = (int(self.opt.step.value), [np.array(x) for x in jax.tree_util.tree_leaves(nnx.state(self.h.real[self.root], self.real_f))], [np.array(v.value) for v in jax.tree_util.tree_leaves(self.opt.opt_state, is_leaf=lambda x: isinstance(x, nnx.Variable))])
+      if before[0] != after[0]:
+        raise Violation('step-counter-wrong', f'op {oi}: the update failed inside optax (nothing was applied) but the step counter went from {before[0]} to {after[0]}')
+      if any(a.tobytes() != b.tobytes() for a, b in zip(before[1] + before[2], after[1] + after[2])):
+        raise Violation('params-differ-from-optax-loop', f'op {oi}: the update failed inside optax but parameters or optimizer state changed')
+      self.h.check_root(self.root, f'op {oi} failed update')
+      self.log.add(oi, 'step', 'failed')
       return
     jit = op['jit']
     res.probe('step_jit' if jit else 'step_eager')
